@@ -11,8 +11,8 @@ def _c04_case(c):
 
 CONFIG = {
     "properties_file": "Properties/C04.v",
-    "proof_files": ["Base/Prelude.v", "Proofs/CopySpec.v", "Proofs/CopyAcct.v"],
-    "model_files": ["Generated/GC04.v", "Model/CopySpec.v", "Model/CopyTop.v"],
+    "proof_files": ["Base/Prelude.v", "Proofs/CopySpec.v", "Proofs/CopyAcct.v", "Proofs/CopyOpt.v"],
+    "model_files": ["Generated/GC04.v", "Model/CopySpec.v", "Model/CopyTop.v", "Model/CopyOpt.v"],
     "extract": "XC04.v",
     "ml_main": "c01_main.ml",
     "harness_test": True,
